@@ -8,6 +8,7 @@ package verifsync
 import (
 	"sync"
 	"sync/atomic"
+	"time"
 )
 
 type (
@@ -44,6 +45,8 @@ type Controller interface {
 	// TryAcquire is a scheduling point too; it never blocks on the lock.
 	TryAcquire(l *LockState, shared bool) bool
 	Release(l *LockState, shared bool)
+	// Now is a scheduling point followed by a reading of the controller's clock.
+	Now() time.Time
 }
 
 type box struct{ c Controller }
@@ -154,3 +157,12 @@ type rlocker RWMutex
 
 func (r *rlocker) Lock()   { (*RWMutex)(r).RLock() }
 func (r *rlocker) Unlock() { (*RWMutex)(r).RUnlock() }
+
+// Now stands in for time.Now in instrumented files: a reading of the clock is a scheduling point, and what the clock
+// shows is the controller's decision.
+func Now() time.Time {
+	if c := ctl(); c != nil {
+		return c.Now()
+	}
+	return time.Now()
+}
